@@ -236,6 +236,7 @@ func c09(run *ev.Run, tier string) {
 		}
 	})
 	c09History(run, dir, payload, &slotsCompared)
+	c09VirtualFiles(run, payload, &slotsCompared)
 	run.Set("slots_compared", slotsCompared)
 	run.Set("script_bytes_compared", bytesCompared)
 	run.Set("subsets_per_format", map[string]int{"deb": 128, "rpm": 128, "apk": 64, "archlinux": 64, "ipk": 16})
@@ -395,6 +396,38 @@ func c09History(run *ev.Run, dir, payload string, compared *int64) {
 						run.Violate("C09/"+f+"/override-block-scripts-not-merged-with-base", map[string]any{"slot": d.slot, "present": ok, "want_present": k < 2})
 					}
 				}
+			}
+		}
+	}
+}
+
+// c09VirtualFiles: a script path that is not an ordinary file with a truthful
+// size (procfs reports st_size 0 for files that have content): the slot holds
+// the bytes a read of the path returns, or the build fails - never an empty or
+// truncated script.
+func c09VirtualFiles(run *ev.Run, payload string, compared *int64) {
+	const vpath = "/proc/sys/kernel/ostype"
+	want, err := os.ReadFile(vpath)
+	if st, serr := os.Stat(vpath); err != nil || serr != nil || st.Size() != 0 || len(want) == 0 {
+		run.Set("virtual_file_scripts", "skipped: "+vpath+" is not a size-0 file with content here")
+		return
+	}
+	for _, f := range formats {
+		for _, d := range slotTable[f] {
+			s := &gen.Spec{Name: "scrv", Arch: "amd64", Version: "1.0.0", Maintainer: "S <s@example.com>", Description: "scripts", MTime: 1400000000}
+			s.RPM.BuildHost = "verif-host"
+			s.Contents = []*gen.Content{{Src: payload, Dst: "/opt/scrv/payload.txt"}}
+			d.set(s, vpath)
+			run.Case("virtual-file-script|"+f+"|"+d.slot, true)
+			res := buildYAML(s.YAML(), f)
+			if res.Err != nil || res.Panic != "" {
+				continue // loud
+			}
+			p := dec.Decode(f, res.Bytes, false)
+			atomic.AddInt64(compared, 1)
+			got, ok := slotBytes(f, p, d.slot)
+			if !ok || !bytes.Equal(bytes.TrimRight(got, "\n"), bytes.TrimRight(want, "\n")) {
+				run.Violate("C09/"+f+"/slot-content/script-read-from-a-file-reporting-size-0", map[string]any{"slot": d.slot, "present": ok, "got": ev.Short(string(got), 80), "want": string(want)})
 			}
 		}
 	}
